@@ -6,6 +6,9 @@ package v1
 // This file holds only comments and is compiled only with -tags verif.
 // Oracle: README.md of this package (the published format dapr.io/enc/v1).
 
+//@ assume-text enc/v1 reader progress: the io.Reader handed to Encrypt / Decrypt makes progress (it does not return (0, nil) for ever, which io.Reader discourages): readHeader and processSegments retry an empty read without a bound, so the "never runs forever" half of C07 is proved for byte-string inputs behind a well-behaved reader (bytes.Reader, files, network connections), not for an adversarial reader object
+//@ assume-text enc/v1 BufPool: the exported sync.Pool BufPool only ever holds what this package puts into it (a *[]byte of 65553 bytes from its New function or from processSegments' Put); a program that Puts a smaller slice into the exported variable makes readHeader / processSegments slice out of range (in the background goroutine for Encrypt: process exit). Stated as the `at call Get#0 assume` clauses of readHeader and processSegments
+
 // ---- C01 (e): identifier tables -------------------------------------------------------------------------------
 // README: 0x01 = A256KW, 0x02 = A128CBC-NOPAD, 0x03 = A192CBC-NOPAD, 0x04 = A256CBC-NOPAD, 0x05 = RSA-OAEP-256;
 // ciphers 0x01 = AES-GCM, 0x02 = ChaCha20-Poly1305. Aliases: AES -> A256KW, RSA -> RSA-OAEP-256.
